@@ -18,6 +18,11 @@ for m in muts:
         res.append((m["id"], "PATTERN-NOT-FOUND", "")); print(m["id"], "PATTERN NOT FOUND"); continue
     try:
         open(p, "w").write(s.replace(m["old"], m["new"], 1))
+        for e in m.get("more", []):
+            pp = "/repo/" + e["file"]
+            ss = open(pp).read()
+            assert e["old"] in ss, ("pattern not found", e["file"], e["old"][:40])
+            open(pp, "w").write(ss.replace(e["old"], e["new"], 1))
         suite_ok = ""
         if suite:
             r = subprocess.run("cd /repo && CARGO_NET_OFFLINE=true cargo test --workspace --no-fail-fast --offline 2>&1 | grep -E '^test result' | awk '{p+=$4; f+=$6} END {print p, f}'", shell=True, capture_output=True, text=True)
